@@ -427,6 +427,19 @@ reg("np.isclose", "np.isclose(np.asarray(a) * 1.25, a, rtol=0.22, atol=0) #X", "
 reg("np.permute_dims", "np.permute_dims(T4, (1, 0, 2)) #K", "np.cumulative_sum(M, axis=1, include_initial=True) #K")
 
 
+# square operands along the non-default axis: a handler that loses axis= keeps the result shape here, so an out= buffer
+# is accepted and only the numbers tell (the out= spellings of these are derived in all_templates)
+for _f in ("sum", "mean", "std", "max", "min", "median", "ptp", "cumsum", "nansum", "nanmean", "nanmax", "nanmin", "nanstd", "nanmedian", "amax", "amin", "average"):
+    reg("np." + _f, f"np.{_f}(S, axis=1) #K")
+for _f in ("prod", "var", "cumprod", "nanvar", "nanprod", "nancumsum", "nancumprod"):
+    reg("np." + _f, f"np.{_f}(S, axis=1)" + (" #K" if _f == "nancumsum" else ""))
+reg("np.percentile", "np.percentile(S, 30, axis=1) #K", "np.quantile(S, 0.3, axis=1) #K", "np.nanpercentile(S, 30, axis=1) #K", "np.nanquantile(S, 0.3, axis=1) #K")
+reg("np.stack", "np.stack([a[:2], b[:2]], axis=1) #K#B", "np.stack([u3, u3 * 2, u3 * 3], axis=1) #K", "np.stack([a[:2], a2[:2]], axis=-1) #K", "np.stack([S, Sym, S * 2], axis=2) #K",
+    "np.stack([S, Sym, S * 2], axis=1) #K")
+reg("np.take", "np.take(S, [2, 0, 1], axis=1) #K", "S.take([2, 0, 1], axis=1) #K", "np.compress([True, True, True], S, axis=1) #K", "np.take_along_axis(S, np.argsort(np.asarray(S), axis=0), axis=0) #K")
+reg("np.sort", "np.sort(S, axis=0) #K", "np.flip(S, axis=1) #K", "np.roll(S, 1, axis=1) #K", "np.diff(np.concatenate([S, S[:1]]), axis=0) #K", "np.gradient(S, axis=1) #K",
+    "np.partition(S, 1, axis=0)[1] #K", "np.linalg.norm(S, axis=0) #K#T", "np.trapezoid(S, axis=0) #K", "np.concatenate([S[:, :2], Sym[:, :1]], axis=1) #K")
+
 import re as _re
 
 _GROUPS = {"methods", "out=", "indexing", "iteration", "setitem", "unsupported", "inplace-operator"}
@@ -509,7 +522,129 @@ def all_templates():
         if kv and kv.replace(" ", "") not in seen:
             seen.add(kv.replace(" ", ""))
             out.append((key, kv, fl))
+    # derived: out= spellings of every single-call template whose NumPy signature has an out parameter, and the other
+    # axes (with keepdims) of every reduction / join / selection template that names a 2-d or 3-d operand without an axis
+    for key, ex, fl in list(out):
+        if ex not in _DERIVED_CACHE:
+            _DERIVED_CACHE[ex] = _derived_variants(ex)
+        for kind, dv in _DERIVED_CACHE[ex]:
+            if dv.replace(" ", "") in seen:
+                continue
+            seen.add(dv.replace(" ", ""))
+            if kind == "out":
+                fk = key if key.startswith("out=") else "out=:" + key
+                out.append((fk, dv, fl))
+            else:
+                out.append((key, dv, fl))
     return out
+
+
+_DERIVED_CACHE = {}
+_FIXED = None
+
+
+def _fixed_data():
+    """one fixed data set, used only to learn the result shape of a template (for the out= buffer)"""
+    global _FIXED
+    if _FIXED is None:
+        _FIXED = make_data(lambda n: [((k * 37) % 311 - 155) / 8 + (0.0625 if (k * 37) % 311 == 155 else 0) for k in range(n)])
+    return _FIXED
+
+
+def _np_callable(func_node):
+    import ast
+
+    parts = []
+    f = func_node
+    while isinstance(f, ast.Attribute):
+        parts.append(f.attr)
+        f = f.value
+    if not (isinstance(f, ast.Name) and f.id == "np"):
+        return None
+    obj = np
+    for nm in reversed(parts):
+        obj = getattr(obj, nm, None)
+        if obj is None:
+            return None
+    return obj
+
+
+_ND_NAMES = {"M": 2, "N": 2, "P": 2, "S": 2, "R": 2, "Sym": 2, "T4": 3, "M2": 2, "S6": 2, "P4S": 2, "Pi": 2, "t2": 2, "nM": 2}
+
+
+def _derived_variants(ex):
+    import ast
+    import inspect
+
+    try:
+        tree = ast.parse(ex, mode="eval").body
+    except SyntaxError:
+        return []
+    if not isinstance(tree, ast.Call) or any(isinstance(a_, ast.Starred) for a_ in tree.args):
+        return []
+    given = {k.arg for k in tree.keywords}
+    method = False
+    obj = _np_callable(tree.func)
+    if obj is None:
+        # method call on a plain operand name: x.f(...)
+        if isinstance(tree.func, ast.Attribute) and isinstance(tree.func.value, ast.Name) and tree.func.value.id in ROLE_OF:
+            obj = getattr(np.ndarray, tree.func.attr, None)
+            method = True
+        if obj is None:
+            return []
+    names = None
+    if isinstance(obj, np.ufunc):
+        names = {"out"} if (obj.nout == 1 and not method) else set()
+    else:
+        try:
+            names = set(inspect.signature(obj).parameters)
+        except (TypeError, ValueError):
+            doc = (getattr(obj, "__doc__", "") or "")[:400]
+            names = {n for n in ("out", "axis", "keepdims") if n + "=" in doc.split("\n\n")[0]}
+    res = []
+
+    def with_kw(**kw):
+        call = ast.Call(func=tree.func, args=list(tree.args),
+                        keywords=list(tree.keywords) + [ast.keyword(arg=k, value=v) for k, v in kw.items()])
+        return ast.unparse(ast.fix_missing_locations(ast.Expression(body=call)))
+
+    def const(v):
+        return ast.parse(repr(v), mode="eval").body
+
+    base_variants = [ex]
+    # ---- other axes -------------------------------------------------------------------
+    first = tree.args[0] if tree.args else (tree.func.value if method else None)
+    nd = _ND_NAMES.get(first.id) if isinstance(first, ast.Name) else None
+    if method:
+        nd = _ND_NAMES.get(tree.func.value.id)
+    if isinstance(first, (ast.List, ast.Tuple)) and first.elts and all(isinstance(e_, ast.Name) for e_ in first.elts):
+        nd = -1  # a join of named operands: the other axes are tried, NumPy itself refuses the impossible ones
+    if "axis" in names and "axis" not in given and nd and not isinstance(obj, np.ufunc):
+        for ax in ([1, -1] if nd == -1 else [1, -2] if nd == 2 else [1, -1, (0, 2)]):
+            v = with_kw(axis=const(ax))
+            res.append(("axis", v))
+            base_variants.append(v)
+            if "keepdims" in names and "keepdims" not in given and ax in (1, (0, 2)):
+                v2 = with_kw(axis=const(ax), keepdims=const(True))
+                res.append(("axis", v2))
+    # ---- out= -------------------------------------------------------------------------
+    if "out" in names and "out" not in given:
+        data = _fixed_data()
+        for bv in base_variants:
+            try:
+                r = evaluate(bv, data, lambda x, role: x)
+            except Exception:
+                continue
+            if not isinstance(r, np.ndarray) and not isinstance(r, np.generic):
+                continue
+            r = np.asarray(r)
+            if r.dtype.kind != "f":
+                continue
+            t2 = ast.parse(bv, mode="eval").body
+            call = ast.Call(func=t2.func, args=list(t2.args), keywords=list(t2.keywords) + [ast.keyword(arg="out", value=ast.Name(id="o", ctx=ast.Load()))])
+            inner = ast.unparse(ast.fix_missing_locations(ast.Expression(body=call)))
+            res.append(("out", f"(lambda o: ({inner}, o))(buf({tuple(r.shape)!r}))"))
+    return res
 
 
 # ---- data --------------------------------------------------------------------------------
